@@ -35,3 +35,36 @@ def run_item(item, monitors, prop, want_toi=False, fix=True):
 
 def strip_item(item):
     return {k: v for k, v in item.items() if k != "lines"}
+
+
+def pipe_items(tier, kinds_q, kinds_t=None, k1=True, k1_rules=None, big=True, gen_thorough_kinds=None):
+    """the shared fix-run universe (DESIGN §5): 0 deviations over all seeds x K0; 1 layout deviation over
+    S_q (quick) or all fix/cls/gen seeds (thorough); K1 deviations of each rule on its own fixture."""
+    from .. import corpus
+    from . import configs_k1
+
+    seeds = corpus.seed_ids(("fix", "cls", "gen"))
+    out = universe.zero_dev(seeds + (corpus.seed_ids(("big",)) if big else []))
+    if tier == "quick":
+        out += universe.one_dev(corpus.small_slice(), kinds_q)
+        if k1:
+            out += configs_k1.items_for_own_fixtures(limit_values=2, rules=k1_rules)
+    else:
+        kt = kinds_t or kinds_q
+        out += universe.one_dev(corpus.seed_ids(("fix", "cls")), kt)
+        out += universe.one_dev(corpus.seed_ids(("gen",)), gen_thorough_kinds or kinds_q)
+        if k1:
+            out += configs_k1.items_for_own_fixtures(limit_values=None, rules=k1_rules)
+    return out
+
+
+def bound_text(tier, kinds_q, kinds_t=None):
+    return (
+        "0 deviations: all 1906 fix/cls/gen seeds + 23 large examples x {default, jcl, indent_only}; 1 layout deviation ("
+        + ",".join(kinds_q if tier == "quick" else (kinds_t or kinds_q))
+        + ") at every applicable position of "
+        + ("the small-seed slice S_q" if tier == "quick" else "every fix/cls seed (and S_gen with the quick operator set)")
+        + "; 1 configuration deviation (documented option values, K1"
+        + (", first 2 values per option" if tier == "quick" else "")
+        + ") of each rule on its own fixture"
+    )
